@@ -305,7 +305,13 @@ theorem C03_request_frame (cfg : Cfg) {srv : Server} (h : srv.WF) (c : Nat) (r :
           refine ⟨h2.1, ?_⟩
           intro d hd
           rcases List.mem_append.mp hd with hd | hd
-          · exact h1.2 d hd
+          · rcases List.mem_append.mp hd with hd | hd
+            · -- the answer to a measurement given up goes to the requester, who is not in `x`
+              have hto : d.1 = c := by
+                have := Tgt.abandoned (L := [p.conn]) s p (List.mem_cons_self ..) d hd
+                simpa [hpc] using this
+              exact (toC [d] (by intro d' hd'; simp at hd'; subst hd'; simp [hto])).2 d (List.mem_cons_self ..)
+            · exact h1.2 d hd
           · exact h2.2 d hd
   cases r <;> try (simp only [Server.handleReq])
   case join rid ots t => exact hjoin rid ots t rfl
